@@ -94,24 +94,27 @@ type RespObs struct {
 }
 
 type Call struct {
-	Serial      int
-	Ex          int // exchange index this call is attributed to (-1 unknown)
-	Fg          bool
-	Gid         uint64
-	StartNs     int64
-	EndNs       int64
-	StartSeq    int64
-	EndSeq      int64
-	Method      string
-	URL         string
-	Header      http.Header
-	Cond        bool
-	Reply       *Reply // the script entry used (nil => default 200)
-	Kind        string // resp | err | hang
-	Status      int
-	RespHdr     http.Header // as sent (placeholders substituted)
-	Trailer     http.Header // trailer fields the origin sends after a chunked body (nil if none)
-	Body        []byte      // full intended body
+	Serial   int
+	Ex       int // exchange index this call is attributed to (-1 unknown)
+	Fg       bool
+	Gid      uint64
+	StartNs  int64
+	EndNs    int64
+	StartSeq int64
+	EndSeq   int64
+	Method   string
+	URL      string
+	Header   http.Header
+	Cond     bool
+	Reply    *Reply // the script entry used (nil => default 200)
+	Kind     string // resp | err | hang
+	Status   int
+	RespHdr  http.Header // as sent (placeholders substituted)
+	Trailer  http.Header // trailer fields the origin sends after a chunked body (nil if none)
+	// BodyTracked: the reply carried a body whose Close is observed; BodyClosed: somebody closed it.
+	BodyTracked bool
+	BodyClosed  atomic.Bool
+	Body        []byte // full intended body
 	FailAt      int
 	CtxDoneNs   int64 // virtual time at which the call saw ctx.Done (-1 if not)
 	CtxErr      string
@@ -550,6 +553,7 @@ type failReader struct {
 	data []byte
 	pos  int
 	fail int // fail after this many bytes (sticky); <0 never
+	call *Call
 }
 
 var ErrBody = errors.New("origin: injected body read failure")
@@ -569,7 +573,12 @@ func (r *failReader) Read(p []byte) (int, error) {
 	r.pos += n
 	return n, nil
 }
-func (r *failReader) Close() error { return nil }
+func (r *failReader) Close() error {
+	if r.call != nil {
+		r.call.BodyClosed.Store(true)
+	}
+	return nil
+}
 
 var tRe = regexp.MustCompile(`\$([TRA])([+-][0-9]+)`)
 var xRe = regexp.MustCompile(`\$X([0-9A-Fa-f]{2})`)
@@ -661,7 +670,7 @@ func (o *origin) RoundTrip(req *http.Request) (*http.Response, error) {
 	}
 	call := &Call{
 		Serial: serial, Ex: exIdx, Fg: fg, Gid: g, StartNs: w.now(), StartSeq: w.seq.Add(1),
-		Method: req.Method, URL: req.URL.String(), Header: canonicalHeader(req.Header), Cond: cond,
+		Method: req.Method, URL: effectiveURL(req), Header: canonicalHeader(req.Header), Cond: cond,
 		Reply: rp, Kind: rp.Kind, CtxDoneNs: -1, FailAt: rp.Body.FailAt,
 	}
 	if dl, ok := req.Context().Deadline(); ok {
@@ -775,7 +784,7 @@ func (o *origin) RoundTrip(req *http.Request) (*http.Response, error) {
 	if rp.Body.FailAt > 0 {
 		fail = rp.Body.FailAt - 1
 	}
-	var rd io.ReadCloser = &failReader{data: body, fail: fail}
+	var rd io.ReadCloser = &failReader{data: body, fail: fail, call: call}
 	switch rp.Shape {
 	case "", "cl":
 		resp.ContentLength = int64(len(body))
@@ -816,7 +825,12 @@ func (o *origin) RoundTrip(req *http.Request) (*http.Response, error) {
 		}
 	}
 	resp.Body = rd
+	_, call.BodyTracked = rd.(*failReader)
 	call.RespHdr = hdr.Clone()
+	if rp.NilHeader {
+		resp.Header = nil
+		call.RespHdr = http.Header{}
+	}
 	call.EndNs = w.now()
 	call.EndSeq = w.seq.Add(1)
 	call.Completed = true
@@ -834,6 +848,29 @@ type reqSnapshot struct {
 	HdrPtr string
 	Ctx    context.Context
 	Body   io.ReadCloser
+}
+
+// effectiveURL is the target URI a server would reconstruct from the request line and the
+// Host field (RFC 9110 §7.1): req.Host overrides URL.Host, URL.Opaque is the request target.
+func effectiveURL(req *http.Request) string {
+	u := *req.URL
+	if req.Host != "" {
+		u.Host = req.Host
+	}
+	if u.Opaque != "" {
+		raw := u.Scheme + ":" + u.Opaque
+		if !strings.HasPrefix(u.Opaque, "//") {
+			raw = u.Scheme + "://" + u.Host + u.Opaque
+		}
+		if u.ForceQuery || u.RawQuery != "" {
+			raw += "?" + u.RawQuery
+		}
+		if u.Fragment != "" {
+			raw += "#" + u.EscapedFragment()
+		}
+		return raw
+	}
+	return u.String()
 }
 
 // canonicalHeader copies a header map, filing every field under its canonical name (what
@@ -1311,6 +1348,26 @@ func (w *World) doReqMode(rt http.RoundTripper, step int, rq *Req, concurrent bo
 	}
 	if rq.EmptyMethod {
 		req.Method = ""
+	}
+	if rq.OpaqueForm > 0 && req.URL.Opaque == "" && !(rq.OpaqueForm == 1 && strings.HasPrefix(req.URL.EscapedPath(), "//")) {
+		// (a path that itself begins with "//" cannot be spelled in Opaque: net/http would
+		// read it as an authority)
+		u := *req.URL
+		u.Opaque = u.EscapedPath()
+		if u.Opaque == "" {
+			u.Opaque = "/"
+		}
+		if rq.OpaqueForm == 2 {
+			u.Opaque = "//" + u.Host + u.Opaque
+		}
+		u.Path, u.RawPath = "", ""
+		req.URL = &u
+	}
+	if rq.DialVia != "" {
+		u := *req.URL
+		req.Host = u.Host
+		u.Host = rq.DialVia
+		req.URL = &u
 	}
 	if rq.SameObj > 0 && !concurrent {
 		if prev := w.reqObj[rq.SameObj-1]; prev != nil {
